@@ -573,7 +573,23 @@ impl Compress {
         packet: &[u8],
         offset: usize,
     ) -> CompressedNameResult {
-        Self::copy_compressed_name_with_base_offset(dict, compressed, packet, offset, 0)
+        // The dictionary must hold offsets into the output being built, not
+        // into the uncompressed input: compress the name as a standalone
+        // slice, relative to the current end of the output.
+        let name_len = Compress::raw_name_len_after_decompression(packet, offset);
+        let final_offset = offset + name_len;
+        let base_offset = compressed.len();
+        let res = Self::copy_compressed_name_with_base_offset(
+            dict,
+            compressed,
+            &packet[offset..final_offset],
+            0,
+            base_offset,
+        );
+        CompressedNameResult {
+            name_len: res.name_len,
+            final_offset,
+        }
     }
 }
 
